@@ -24,6 +24,7 @@ RULES = {
     'R3': 'SPEC(charge_fees=false) reaches no charge; REACH(query variants) ∩ {accept, verify} = ∅',
     'R4': 'GATE(computation success ⇒ variable charge)',
     'R5': 'TABLE(cost_*) ≥ TABLE(Fees::mainnet/testnet/default) for 15 cells',
+    'R6': 'the fee table in force is the configured one: explicit fees win, otherwise Fees::mainnet() / Fees::testnet() / default per network (Config::from(InitConfig)); init and set_config copy `fees` from the field of the same name',
 }
 ASSUMPTIONS = ['msg_cycles_accept(max) accepts min(max, available) (IC semantics); the assert in charge_cycles makes a short accept trap']
 API = 'ic_btc_canister::api::'
@@ -352,3 +353,15 @@ def r5(ctx):
         nm = [c for c in f.calls() if not c.cleanup and c.matches('ic_cdk::call::Call::bounded_wait', 'ic_cdk::call::Call::unbounded_wait')]
         meth = const_val(e.operand(nm[0].args[1])) if nm else None
         ctx.check(isinstance(meth, str) and meth.strip('"') == ep, 'R5', 'method-name:' + ep, nm[0] if nm else f, 'calls method "%s"' % ep, 'calls method %s' % meth)
+
+
+# plumbing between the interface and the analysed functions (rules/plumbing.py)
+_run_before_plumbing = run
+
+
+def run(ctx):
+    _run_before_plumbing(ctx)
+    from rules import plumbing
+    plumbing.config_from_init(ctx, 'R6')
+    plumbing.init_applies_config(ctx, 'R6', fields=('fees',))
+    plumbing.set_config_same_name(ctx, 'R6')
